@@ -34,6 +34,7 @@ pub(crate) struct AssocFileData {
     source_name: Arc<PathBuf>,
     exports: RefCell<Option<Export>>,
     files: FileManager,
+    local_classes: Cell<usize>,
 }
 
 #[derive(Debug, PartialEq, Clone)]
@@ -76,7 +77,16 @@ impl AssocFileData {
             source_name: Arc::new(destination.with_extension("ms").to_path_buf()),
             files: files_loaded,
             exports: RefCell::default(),
+            local_classes: Cell::new(0),
         }
+    }
+
+    /// The bytecode name of a class that is not declared at the top level of the file.
+    /// `$` cannot occur in an identifier, so it never collides with a name from the source.
+    pub fn next_local_class_name(&self, source_name: &str) -> String {
+        let n = self.local_classes.get() + 1;
+        self.local_classes.set(n);
+        format!("{source_name}${n}")
     }
 
     pub fn file_manager(&self) -> &FileManager {
